@@ -3,6 +3,7 @@ import common
 import lrcommon
 import notecommon
 from props import c04_resolve
+from props import c01_genmodel
 
 LEVEL = "proof"
 
@@ -11,6 +12,7 @@ def run(r):
     r.require_theorems(1)
     r.run_witnesses(["C04", "C01"])
     c04_resolve.run_resolve(r)
+    c01_genmodel.run_genmodel(r, props=("C01", "C04"))
     n = 250 if r.tier == "quick" else 6000
     notecommon.run_notes(r, "lalr", "C04", n, label="verdict = (independent LALR(1) reference keeps a conflict after the documented precedence rule); "
                          "accepted automata equal the reference automaton item for item")
